@@ -124,7 +124,7 @@ pub fn run_c04(tier: Tier) -> i32 {
     let mut run = Run::new("C04", tier, "exploration");
     let p = Histories { seek_weight: 2, positions: false };
     run.replays("history-cursor-model", &p);
-    run.generated("history-cursor-model", &p, tier.pick(80_000, 3_000_000));
+    run.generated("history-cursor-model", &p, tier.pick(200_000, 3_000_000));
     run.finish(RULE_C04, &["reference model M_fa/M_fq", "no faults, permissive policies (faults: C14, refusals: C09, totality: C06)"])
 }
 
@@ -132,7 +132,7 @@ pub fn run_c05(tier: Tier) -> i32 {
     let mut run = Run::new("C05", tier, "exploration");
     let p = Histories { seek_weight: 24, positions: true };
     run.replays("seek-position-model", &p);
-    run.generated("seek-position-model", &p, tier.pick(80_000, 3_000_000));
+    run.generated("seek-position-model", &p, tier.pick(200_000, 3_000_000));
     run.finish(RULE_C05, &["reference model M_fa/M_fq gives the true coordinates", "seek targets are record starts (and the invalid FASTQ group) only"])
 }
 
